@@ -450,7 +450,14 @@ func (g *G) BoolExpr(depth int) *xast.Expr {
 // ---------------------------------------------------------------------------
 // namespaces (C14) and unions (C11)
 
-var nsLabels = [][3]string{{"", "", "a"}, {"p", "u1", "a"}, {"q", "u1", "a"}, {"p", "u2", "b"}, {"q", "u2", "a"}, {"r", "u3", "b"}, {"", "", "b"}}
+// three different URIs that a "canonicalising" comparison would confuse: trailing '/', letter case
+const (
+	u1 = "http://ex.org/ns/"
+	u2 = "http://ex.org/ns"
+	u3 = "HTTP://EX.ORG/NS/"
+)
+
+var nsLabels = [][3]string{{"", "", "a"}, {"p", u1, "a"}, {"q", u1, "a"}, {"p", u2, "b"}, {"q", u2, "a"}, {"r", u3, "b"}, {"", "", "b"}}
 
 // NsDoc decorates a random document with prefixes / namespace URIs.
 func (g *G) NsDoc(max int) *vdoc.Doc {
@@ -492,7 +499,7 @@ func (g *G) NsDoc(max int) *vdoc.Doc {
 }
 
 // NsMaps are the namespace maps of the configurations (nil = Compile without a map).
-var NsMaps = []map[string]string{nil, {"p": "u1", "q": "u2"}, {"p": "u2"}, {"r": "u1", "p": "u3"}, {}, {"p": "u1", "q": "u1", "r": "u3"}}
+var NsMaps = []map[string]string{nil, {"p": u1, "q": u2}, {"p": u2}, {"r": u1, "p": u3}, {}, {"p": u1, "q": u1, "r": u3}}
 
 // NsPath draws a path whose name tests carry prefixes.
 func (g *G) NsPath() *xast.Expr {
